@@ -73,12 +73,21 @@ structure Disp where
   resp : Nat := 0                     -- remedies active on the response leg of the early answer
 deriving Repr
 
+/-- Credentials seen leaving the engine on a forwarded request: the authentication remedies they belong to. -/
+structure Auth where
+  method : String
+  url : String
+  parts : List Part
+  keys : List String
+deriving Repr
+
 /-- One `build` (a declaration order) with the requests answered by that tree. -/
 structure Round where
   eps : List Endpoint
   built : String
   reqs : List Req
   disps : List Disp := []
+  auths : List Auth := []
   glob : Option Globals := none       -- globals in force when they differ from the declared ones (after a revert)
   mode : String := "full"             -- "full" | "free" (after the diagnosis-free revert)
 deriving Repr
@@ -218,6 +227,12 @@ def dispOk (eps : List Endpoint) (g : Globals) (method : String) (u : Url) (firs
   eps.any fun e => e.method == method && «matches» e.parts u &&
     e.remedies.any (fun r => r.enabled && r.name == first)
 
+/-- (D) credentials: every authentication remedy whose account's credentials leave the engine with the request
+    is an enabled global one or an enabled remedy of an endpoint declared for the request's method whose pattern
+    matches the URL (the remedy of ANOTHER method of the same pattern is not). -/
+def authOk (eps : List Endpoint) (g : Globals) (method : String) (u : Url) (keys : List String) : Bool :=
+  keys.all fun k => dispOk eps g method u k
+
 /-- (D) response leg of an early answer: the remedies run on the synthesised response are those of the SAME
     endpoint policy the request's (method, URL) selects (answer `a`), plus the global ones — observed through
     the retry remedies, the ones that act on a response (at most one acts: `resp` is 1 iff one is selected). -/
@@ -287,6 +302,14 @@ def dispVerdicts (g0 : Globals) (r : Round) : List Verdict :=
           s!"early-response-leg-ran-another-policy {d.method} {d.url} resp={d.resp} pol={q.ans.pol.getD "-"}"⟩
       | none => none
 
+def authVerdicts (g0 : Globals) (r : Round) : List Verdict :=
+  let g := r.glob.getD g0
+  if r.built != "ok" then [] else
+  r.auths.filterMap fun a =>
+    if authOk r.eps g a.method a.parts a.keys then none
+    else some ⟨classifyReq r.eps a.parts,
+      s!"credentials-of-an-unentitled-remedy {a.method} {a.url} keys={String.intercalate "," a.keys}"⟩
+
 def classifyOrder (eps : List Endpoint) : String :=
   if cfgBoundaryMix eps then "F13c" else "-"
 
@@ -301,7 +324,8 @@ def orderVerdicts : List Round → List Verdict
         [⟨classifyOrder r1.eps, "order-dependent"⟩])) ++ orderVerdicts rest
 
 def caseVerdicts (g : Globals) (rounds : List Round) : List Verdict :=
-  (rounds.flatMap (reqVerdicts g)) ++ (rounds.flatMap (dispVerdicts g)) ++ orderVerdicts rounds
+  (rounds.flatMap (reqVerdicts g)) ++ (rounds.flatMap (dispVerdicts g)) ++ (rounds.flatMap (authVerdicts g)) ++
+    orderVerdicts rounds
 
 /-- Per case: everything observed satisfies the property. -/
 def holds (g : Globals) (rounds : List Round) : Bool := (caseVerdicts g rounds).isEmpty
